@@ -713,6 +713,9 @@ class FixedRowWriter(AbstractRowWriter):
 
 #: Maximum number of characters an Excel cell can hold.
 _MAX_EXCEL_TEXT_LENGTH = 32767
+#: Maximum number of rows and columns in a sheet of an Excel 2007+ workbook.
+_MAX_EXCEL_ROW_COUNT = 1048576
+_MAX_EXCEL_COLUMN_COUNT = 16384
 
 
 class XlsxRowWriter(AbstractRowWriter):
@@ -773,6 +776,17 @@ class XlsxRowWriter(AbstractRowWriter):
         assert row_to_write is not None
 
         row_index = self.location.line
+        # Refuse the row before anything is written because xlsxwriter would silently drop cells outside of the sheet.
+        if row_index >= _MAX_EXCEL_ROW_COUNT:
+            raise errors.DataFormatError(
+                "cannot write data row: Excel sheet must have at most %d rows" % _MAX_EXCEL_ROW_COUNT, self.location
+            )
+        if len(row_to_write) > _MAX_EXCEL_COLUMN_COUNT:
+            raise errors.DataFormatError(
+                "cannot write data row: Excel row must have at most %d cells but has %d"
+                % (_MAX_EXCEL_COLUMN_COUNT, len(row_to_write)),
+                self.location,
+            )
         for item in row_to_write:
             # Refuse the row before anything is written because xlsxwriter would silently truncate the text.
             if isinstance(item, str) and len(item) > _MAX_EXCEL_TEXT_LENGTH:
